@@ -5,7 +5,9 @@ package dastard
 
 import (
 	"fmt"
+	"math/rand"
 	"net"
+	"os"
 	"runtime"
 	"strings"
 	"sync"
@@ -154,7 +156,7 @@ func TestVerifAbacoUDP(t *testing.T) {
 	step := func(name string, f func() error, limit time.Duration) {
 		ret, msg := auCall(f, limit)
 		c := auCensus()
-		vEmit(vmap{"ev": "UDPStep", "scen": 1, "step": name, "returned": ret, "err": msg, "state": lcStateName(as.GetState()),
+		vEmit(vmap{"ev": "UDPStep", "scen": 1, "step": name, "returned": ret, "err": msg, "state": lcStateName(as.GetState()), "writing": as.WritingIsActive(),
 			"census": vmap{"core": c["core"] - c0["core"], "udp": c["udp"] - c0["udp"], "reader": c["reader"] - c0["reader"]}})
 	}
 	// 1. nothing is sending: Start must fail and leave the source startable
@@ -170,7 +172,7 @@ func TestVerifAbacoUDP(t *testing.T) {
 	step("after-stop", func() error { return nil }, time.Second)
 	// 3. restart of the same object
 	if err := as.Configure(&AbacoSourceConfig{HostPortUDP: []string{addr}}); err != nil {
-		vEmit(vmap{"ev": "UDPStep", "scen": 1, "step": "reconfigure", "returned": true, "err": err.Error(), "state": lcStateName(as.GetState()), "census": vmap{"core": 0, "udp": 0, "reader": 0}})
+		vEmit(vmap{"ev": "UDPStep", "scen": 1, "step": "reconfigure", "returned": true, "err": err.Error(), "state": lcStateName(as.GetState()), "writing": false, "census": vmap{"core": 0, "udp": 0, "reader": 0}})
 	}
 	step("restart", func() error { return Start(as, q, 10, 40) }, 15*time.Second)
 	time.Sleep(200 * time.Millisecond)
@@ -185,6 +187,9 @@ func TestVerifAbacoUDP(t *testing.T) {
 		time.Sleep(time.Duration(20+7*k) * time.Millisecond)
 		step("stop2", func() error { return as.Stop() }, 10*time.Second)
 	}
+	// (An Abaco source whose hardware falls silent does not end by itself: getNextBlock panics on purpose after
+	// cap(buffersChan) read periods - "timeout, no data from Abaco" - which takes the server down by design.  The source
+	// that does end by itself on silence is the ROACH source: see TestVerifRoachSelfEnd.)
 	// the same cycles under the gate: the receiver goroutine stands before its select while stop() closes socket and channel
 	au.mu.Lock()
 	au.armed = true
@@ -210,4 +215,95 @@ func TestVerifAbacoUDP(t *testing.T) {
 	time.Sleep(300 * time.Millisecond)
 	step("end", func() error { return nil }, time.Second)
 	vEmit(vmap{"ev": "UDPGated", "scen": 1, "gated": g})
+}
+
+// TestVerifRoachSelfEnd: a real source that ends by itself while data are being written.  A scripted ROACH sends packets,
+// the source is started through Start(), writing is switched on through the request queue, the device falls silent; after
+// its 2 s keep-alive the reader reports an error block and the core loop ends.  A Stop that comes afterwards finds nothing
+// to stop.  Recorded as UDPStep events (same predicates as the Abaco cycles).
+func TestVerifRoachSelfEnd(t *testing.T) {
+	census := func() map[string]int {
+		buf := make([]byte, 1<<20)
+		n := runtime.Stack(buf, true)
+		out := map[string]int{"core": 0, "udp": 0, "reader": 0}
+		for _, g := range strings.Split(string(buf[:n]), "\n\n") {
+			if strings.Contains(g, "dastard.CoreLoop(") {
+				out["core"]++
+			}
+			if strings.Contains(g, "RoachDevice).readPackets") {
+				out["udp"]++
+			}
+			if strings.Contains(g, "RoachSource).StartRun.func1") {
+				out["reader"]++
+			}
+		}
+		return out
+	}
+	c0 := census()
+	port := vFreePort("udp")
+	addr := fmt.Sprintf("127.0.0.1:%d", port)
+	rs, err := NewRoachSource()
+	if err != nil {
+		t.Fatal(err)
+	}
+	q := make(chan func())
+	step := func(name string, f func() error, limit time.Duration) {
+		ret, msg := auCall(f, limit)
+		c := census()
+		vEmit(vmap{"ev": "UDPStep", "scen": 2, "step": name, "returned": ret, "err": msg, "state": lcStateName(rs.GetState()), "writing": rs.WritingIsActive(),
+			"census": vmap{"core": c["core"] - c0["core"], "udp": c["udp"] - c0["udp"], "reader": c["reader"] - c0["reader"]}})
+	}
+	sender := func(stop chan struct{}) {
+		conn, err := net.Dial("udp", addr)
+		if err != nil {
+			return
+		}
+		defer conn.Close()
+		junk := rand.New(rand.NewSource(1))
+		sn := uint64(5000)
+		tick := time.NewTicker(time.Millisecond)
+		defer tick.Stop()
+		for {
+			select {
+			case <-stop:
+				return
+			case <-tick.C:
+				vals := make([][]int, 10)
+				for j := range vals {
+					vals[j] = []int{int(sn+uint64(j)) % 3000, 7000}
+				}
+				conn.Write(roBytes(2, 2, sn, vals, junk))
+				sn += 10
+			}
+		}
+	}
+	for cycle := 0; cycle < 2; cycle++ {
+		if err := rs.Configure(&RoachSourceConfig{HostPort: []string{addr}, Rates: []float64{10000}}); err != nil {
+			vEmit(vmap{"ev": "UDPStep", "scen": 2, "step": "reconfigure", "returned": true, "err": err.Error(), "state": lcStateName(rs.GetState()), "writing": false, "census": vmap{"core": 0, "udp": 0, "reader": 0}})
+			return
+		}
+		stop := make(chan struct{})
+		go sender(stop)
+		time.Sleep(30 * time.Millisecond)
+		step("restart", func() error { return Start(rs, q, 10, 40) }, 15*time.Second)
+		wdir, _ := os.MkdirTemp("", "verif_roach")
+		defer os.RemoveAll(wdir)
+		step("write-start", func() error {
+			res := make(chan error, 1)
+			select {
+			case q <- func() { res <- rs.WriteControl(&WriteControlConfig{Request: "Start", Path: wdir, WriteLJH22: true}) }:
+				return <-res
+			case <-time.After(5 * time.Second):
+				return fmt.Errorf("the core loop did not take the request")
+			}
+		}, 10*time.Second)
+		time.Sleep(150 * time.Millisecond)
+		close(stop) // silence: the reader gives up after its 2 s keep-alive
+		for i := 0; i < 120 && rs.GetState() != Inactive; i++ {
+			time.Sleep(50 * time.Millisecond)
+		}
+		step("stop-after-selfend", func() error { rs.Stop(); return nil }, 10*time.Second)
+		time.Sleep(200 * time.Millisecond)
+		step("after-selfend", func() error { return nil }, time.Second)
+	}
 }
